@@ -17,7 +17,12 @@ IDS = {"std3": "http://json-schema.org/draft-03/schema", "std4": "http://json-sc
 PAIRS = [({"type": "integer"}, 1.0), ({"const": 1}, 2), ({"if": {"type": "integer"}, "then": {"minimum": 5}}, 1),
          ({"contains": {"type": "string"}}, [1]), ({"minimum": 1, "exclusiveMinimum": True}, 1), ({"divisibleBy": 2}, 3),
          ({"items": [True, False]}, [1, 2]), ({"propertyNames": {"maxLength": 1}}, {"ab": 1}), ({"type": "any"}, 1),
-         ({"required": ["a"]}, {}), ({"dependencies": {"a": "b"}}, {"a": 1})]
+         ({"required": ["a"]}, {}), ({"dependencies": {"a": "b"}}, {"a": 1}),
+         # a document with a root `id` (drafts 3/4 read it, drafts 6/7 do not) and references into itself
+         ({"id": "http://cli.invalid/dir/root.json", "definitions": {"int": {"type": "integer"}},
+           "properties": {"b": {"$ref": "#/definitions/int"}, "c": {"$ref": "root.json#/definitions/int"}}}, {"b": "x"}),
+         # a schema only the LATER classes accept (their "array" admits tuples): the stock classes raise SchemaError
+         ({"enum": (1, 2)}, 3)]
 
 
 def outcome(js, fn):
@@ -45,8 +50,8 @@ def main(args):
                "boolean schema) and both defaults; TLC checks that existing registrations are kept and later classes are "
                "selectable, and exports the selected class and whether a DeprecationWarning is due. Replay: real "
                "registrations (registries restored afterwards), validator_for with warnings captured, then "
-               "jsonschema.validate() -- and for a sample the CLI -- on 11 (schema, instance) pairs on which the drafts "
-               "disagree must behave exactly as the selected class (and an explicitly given class must win). "
+               "jsonschema.validate() -- and for a sample the CLI -- on 13 (schema, instance) pairs on which the drafts "
+               "(and the later classes, whose arrays admit tuples) disagree must behave exactly as the selected class applied to its own metaschema and to the instance (and an explicitly given class must win). "
                "Non-trivial: the spelling names a registered id; distinct by (registrations, spelling, default)." % (2 if quick else 3))
     r = tlc.run("mc/MC_C20.tla", cfg="mc/MC_C20_%s.cfg" % args.tier, workers=8, timeout=3000)
     if r.violation:
@@ -68,12 +73,13 @@ def main(args):
                     with warnings.catch_warnings():
                         warnings.simplefilter("ignore")
                         classes.append(V.create(meta_schema=meta, validators=b.VALIDATORS, version=reg["version"],
-                                                type_checker=b.TYPE_CHECKER, id_of=b.ID_OF))
+                                                type_checker=b.TYPE_CHECKER.redefine("array", lambda c, x: isinstance(x, (list, tuple))),
+                                                id_of=b.ID_OF))
                 q = ex["q"]
                 sp = q["sp"]
                 want = classes[q["c"] - 1]
                 dflt = classes[q["dflt"] - 1]
-                for body, inst in (PAIRS if n % 7 == 0 else PAIRS[: 3 + n % 4]):
+                for body, inst in (PAIRS if n % 7 == 0 else PAIRS[: 3 + n % 4] + PAIRS[-2:]):
                     if sp["base"] == "boolean":
                         schema = True
                     elif sp["base"] == "absent":
@@ -101,14 +107,17 @@ def main(args):
                         with warnings.catch_warnings():
                             warnings.simplefilter("ignore")
                             a = outcome(js, lambda: js.validate(inst, schema))
-                            b_ = outcome(js, lambda: (want.check_schema(schema), _raise_best(js, want, schema, inst)))
+                            b_ = as_class(js, want, schema, inst)
                             e_ = outcome(js, lambda: js.validate(inst, schema, cls=js.Draft3Validator))
-                            e2 = outcome(js, lambda: (js.Draft3Validator.check_schema(schema), _raise_best(js, js.Draft3Validator, schema, inst)))
+                            e2 = as_class(js, js.Draft3Validator, schema, inst)
+                            if len(classes) > 4:      # ... also when the explicitly given class is a later one
+                                e_ = (e_, outcome(js, lambda: js.validate(inst, schema, cls=classes[-1])))
+                                e2 = (e2, as_class(js, classes[-1], schema, inst))
                         if a != b_:
                             ck.violation("validate_differs_from_selected_class", dict(case, validate=a, selected_class=b_))
                         if e_ != e2:
                             ck.violation("explicit_class_does_not_win", dict(case, validate=e_, explicit_class=e2))
-                        if n % 23 == 0 and isinstance(schema, dict):
+                        if (n % 23 == 0 or (n % 3 == 0 and "id" in body)) and isinstance(schema, dict) and "enum" not in body:
                             sp_path = os.path.join(tmp, "s.json")
                             ip = os.path.join(tmp, "i.json")
                             json.dump(schema, open(sp_path, "w"))
@@ -116,9 +125,12 @@ def main(args):
                             so, se = io.StringIO(), io.StringIO()
                             with warnings.catch_warnings():
                                 warnings.simplefilter("ignore")
-                                code = cli.run(cli.parse_args(["-i", ip, sp_path]), stdout=so, stderr=se)
+                                try:
+                                    code = cli.run(cli.parse_args(["-i", ip, sp_path]), stdout=so, stderr=se)
+                                except Exception as e:  # noqa
+                                    code = "crash: %s: %s" % (type(e).__name__, str(e)[:100])
                             lib_ok = b_[0] == "valid"
-                            if (code == 0) != lib_ok:
+                            if b_[0] in ("valid", "invalid", "schemaerror") and (isinstance(code, str) or (code == 0) != lib_ok):
                                 ck.violation("cli_differs_from_selected_class", dict(case, cli_exit=code, selected_class=b_, stderr=se.getvalue()[:200]))
                     if len(ck.samples) < 3 and sp["suf"] == "#" and ex["regs"] and sp["base"].startswith("new"):
                         ck.sample(case)
@@ -131,6 +143,14 @@ def main(args):
         shutil.rmtree(tmp, ignore_errors=True)
     ck.exhaustive = True
     return ck.finish()
+
+
+def as_class(js, cls, schema, inst):
+    """what `cls` itself says: its own keyword tables and type checker applied to its own metaschema, then to the instance"""
+    first = next(cls(cls.META_SCHEMA).iter_errors(schema), None)
+    if first is not None:
+        return ("schemaerror", first.message)
+    return outcome(js, lambda: _raise_best(js, cls, schema, inst))
 
 
 def _raise_best(js, cls, schema, inst):
